@@ -303,14 +303,19 @@ class Encoder(Coder):
                 values[idx] = value
 
             min_value, max_value = state.minmax(values)
-            nbits_diff = nbits_for_uint(max_value - min_value + 1)
-            # Now subtract the minimum from the values
-            for idx, value in enumerate(values):
-                if value is None:
-                    value = NUMERIC_MISSING_VALUES[nbits_diff]
-                else:
-                    value -= min_value
-                values[idx] = value
+            if min_value == max_value and None not in values:
+                # Values that differ only beyond the precision of the element are
+                # one and the same once scaled: all subsets agree
+                nbits_diff = 0
+            else:
+                nbits_diff = nbits_for_uint(max_value - min_value + 1)
+                # Now subtract the minimum from the values
+                for idx, value in enumerate(values):
+                    if value is None:
+                        value = NUMERIC_MISSING_VALUES[nbits_diff]
+                    else:
+                        value -= min_value
+                    values[idx] = value
 
         bit_writer.write_uint(min_value, nbits_min_value)
         bit_writer.write_uint(nbits_diff, NBITS_FOR_NBITS_DIFF)
